@@ -42,14 +42,18 @@ def run(tier, seed):
     base = rnd.sample(base, 150 if tier == "quick" else 1500) + c06.random_cases(40 if tier == "quick" else 600, seed)
     # stub faults: nth PUT fails once / always
     faulty = []
-    for i, c in enumerate(base[:48 if tier == "quick" else 400]):
+    for i, c in enumerate(base[:60 if tier == "quick" else 500]):
         f = dict(c)
         f["id"] = "f" + c["id"]
         # four kinds of fault: a single refused request (the SDK retries it itself), every request from
         # the n-th on, every SDK attempt of the n-th PutObject operation (the node's own retry must
         # upload the same object again), every operation from the n-th on
-        kind = i % 4
-        if kind < 2:
+        kind = i % 5
+        if kind == 4:
+            # every upload of one object (the n-th distinct one of the history) is refused, however often
+            # it is tried again, while the other objects go through: must be reported
+            f["fail_path_nth"] = 1 + (i // 5) % 3
+        elif kind < 2:
             f["fail_put_nth"] = 1 + (i // 4) % 4
             f["fail_put_always"] = kind == 1
         else:
@@ -77,7 +81,8 @@ def run(tier, seed):
                 "partitions) against an in-process S3 stub (PutObject / GetObject / ListObjectsV2), also with "
                 "faults: the n-th PUT request refused once (hidden by the SDK's own retry) or from then on, every SDK "
                 "attempt of the n-th PutObject operation refused (the node's retry must upload the same object "
-                "again) or of every operation from then on (must be reported); Trace_Restore: the dump after every restart equals the "
+                "again) or of every operation from then on (must be reported), every upload of one particular object refused while the "
+                "others succeed (must be reported); Trace_Restore: the dump after every restart equals the "
                 "dump at the last completed snapshot incl. id and strategy",
     })
     res.assumptions = ["S3 stub with strong read-after-write consistency; the SDK's own retries are opaque",
